@@ -24,6 +24,7 @@ structure St where
   cubic : Option Cubic := none
   sock : SockSt := {}
   txPos : Nat := 0   -- bytes accepted so far (position-coded payload generator)
+  txLastW : Nat := 1 -- which task's waker the write half has stored (1 = A, 2 = B)
 
 def step (st : St) (line : String) : St × String :=
   match toks line with
@@ -33,11 +34,11 @@ def step (st : St) (line : String) : St × String :=
   | "mtu" :: args => let (r, o) := stepMtu st.mtu args; ({ st with mtu := r }, o)
   | "tx" :: args =>
     let pos := if args.head? = some "new" then 0 else st.txPos
-    let (r, o) := stepTxRing st.tx pos args
+    let (r, o, lw) := stepTxRing st.tx pos st.txLastW args
     let acc := match (o.splitOn " ").head? with
-      | some w => if w.startsWith "ready:" ∧ args.head? = some "writepos" then (w.drop 6).toNat?.getD 0 else 0
+      | some w => if w.startsWith "ready:" ∧ (args.head? = some "writepos" ∨ args.head? = some "writeposb") then (w.drop 6).toNat?.getD 0 else 0
       | none => 0
-    ({ st with tx := r, txPos := pos + acc }, o)
+    ({ st with tx := r, txPos := pos + acc, txLastW := lw }, o)
   | "rx" :: args => let (r, o) := stepRx st.rx args; ({ st with rx := r }, o)
   | "seg" :: args => let (r, o) := stepSegs st.segs args; ({ st with segs := r }, o)
   | "vs" :: args => let (r, o) := stepVs st.vs args; ({ st with vs := r }, o)
